@@ -601,10 +601,17 @@ func Gen(t *rapid.T, cfg Config) Project {
 			case 2:
 				fmt.Fprintf(&tail, "import(\"ext-dyn\").then((m) => console.log(\"%s.extdyn\", m));\n", "MARK_"+s.id)
 			case 3:
-				if useRequire {
+				switch {
+				case useRequire:
 					fmt.Fprintf(&tail, "console.log(\"%s.extrq\", require(\"ext-req\"));\n", "MARK_"+s.id)
-				} else {
+				case opts.Splitting:
 					fmt.Fprintf(&sb, "export * from \"ext-star\";\n")
+				default:
+					// Without splitting a dynamically imported module (and whatever it imports) is wrapped in a
+					// lazy __esm closure; for an entry point esbuild then prints `export * from "ext"` INSIDE the
+					// closure (a syntax error; reported as a finding outside C08/C18/C19). The shape is excluded here.
+					fmt.Fprintf(&sb, "import * as extns from \"ext-ns\";\n")
+					uses = append(uses, "extns")
 				}
 			}
 		}
